@@ -43,7 +43,7 @@ func corpus() []scripted {
 		{"wellformed", func(g *gen) {
 			g.do(sn(nodeV("n2", "", "")), d("DeliverNode", "n2"), sp(podV("p1", "n2")), d("DeliverPod", "p1"),
 				sn(nodeV("n2", "x2", "")), sc(claimV("c1", "", "pb")), d("DeliverClaim", "c1"), d("DeliverNode", "n2"),
-				sc(claimV("c1", "x1", "pb")), d("DeliverClaim", "c1"), Op{Kind: "Mark", IDs: []string{"x1", "x2"}})
+				sc(claimV("c1", "x1", "pb")), d("DeliverClaim", "c1"), Op{Kind: "Mark", IDs: []string{"nope", "x1", "gone", "x2"}}, Op{Kind: "Unmark", IDs: []string{"nope", "x2", "x1"}}, Op{Kind: "Mark", IDs: []string{"x2", "nope"}})
 		}},
 		// deletion seen before the update: node and claim deleted while deliveries lag
 		{"wellformed", func(g *gen) {
@@ -65,6 +65,12 @@ func corpus() []scripted {
 			g.do(sn(nodeV("n0", "x0", "pa")), d("DeliverNode", "n0"), sp(podV("p0", "n0")), d("DeliverPod", "p0"),
 				sp(podV("p0", "ghost")), d("DeliverPod", "p0"))
 		}},
+		// ... and the same history once that node exists and is delivered: the premises hold again, the round
+		// (in fact the node delivery alone) moves the binding and cleans the old node
+		{"untracked", func(g *gen) {
+			g.do(sn(nodeV("n0", "x0", "pa")), d("DeliverNode", "n0"), sp(podV("p0", "n0")), d("DeliverPod", "p0"),
+				sp(podV("p0", "ghost")), d("DeliverPod", "p0"), sn(nodeV("ghost", "xg", "pb")), d("DeliverNode", "ghost"))
+		}},
 	}
 }
 
@@ -79,5 +85,5 @@ var allBranches = []string{
 	"br:UpdatePod:pending", "br:UpdatePod:pending-but-binding-known", "br:UpdatePod:node-not-found", "br:UpdatePod:node-not-found-binding-known",
 	"br:UpdatePod:new-binding", "br:UpdatePod:same-binding", "br:UpdatePod:moved-cleans-old-node", "br:UpdatePod:moved-old-node-gone",
 	"br:updateForPod:daemonset", "br:updateForPod:cost-positive", "br:updateForPod:cost-nonpositive",
-	"br:Mark:hit", "br:Mark:miss", "br:Unmark:hit", "br:Unmark:miss",
+	"br:Mark:hit", "br:Mark:miss", "br:Unmark:hit", "br:Unmark:miss", "br:UpdatePod:rewritten-on-same-node-leaves-stale-entry",
 }
